@@ -220,6 +220,12 @@ func serve(conn net.Conn, c caseSpec, lg *connLog) {
 			}
 			conn.Write(good[:len(good)/2+2])
 			return true
+		case "neglen":
+			// a malformed answer: the length prefix of the frame is negative (raw exchange: the whole "frame" is
+			// that prefix; framed: the size field of the response)
+			lg.addEnv("IOERR")
+			conn.Write([]byte{0xff, 0xff, 0xff, 0xff})
+			return false
 		case "badid":
 			lg.addEnv("IOERR")
 			b := append([]byte(nil), good...)
@@ -246,6 +252,14 @@ func serve(conn net.Conn, c caseSpec, lg *connLog) {
 			if c.failKind == "code" && framed {
 				lg.addEnv("R:58:-:0")
 				conn.Write(reply(58, nil))
+				return false
+			}
+			if c.failKind == "neglen" && framed {
+				// a 4-byte negative size is not even a complete frame header: for framed answers use the wrong-id frame
+				lg.addEnv("IOERR")
+				b := reply(0, []byte{1, 2, 3, 4, 5, 6})
+				b[4+3] ^= 0x55
+				conn.Write(b)
 				return false
 			}
 			if c.failKind != "code" && !(c.failKind == "badid" && !framed) {
@@ -567,7 +581,10 @@ func main() {
 			}
 			// failure at every step
 			for _, at := range []string{"versions", "handshake", "auth1", "auth2", "auth3"} {
-				for _, kind := range []string{"code", "eof", "badid", "trunc"} {
+				for _, kind := range []string{"code", "eof", "badid", "trunc", "neglen"} {
+					if kind == "neglen" && !strings.HasPrefix(at, "auth") {
+						continue
+					}
 					m := []string{"plain", "scram256", "steps"}[r.Intn(3)]
 					if at == "auth2" && m == "plain" {
 						m = "scram512"
